@@ -59,7 +59,7 @@ func cmdCheck(args []string) {
 	vdir := fs.String("verif", "/verif", "verif directory")
 	prop := fs.String("prop", "", "property id")
 	tier := fs.String("tier", "quick", "quick|thorough")
-	workers := fs.Int("j", 14, "parallel solver processes")
+	workers := fs.Int("j", 8, "parallel solver processes")
 	writeClaims := fs.Bool("write-claims", false, "(maintenance) rewrite the claims file from this run; never used by registered commands")
 	verbose := fs.Bool("v", false, "verbose")
 	fs.Parse(args)
